@@ -85,7 +85,8 @@ def structure_check(tier, seed):
         for m in API:
             n += 1
             f, owner = cls.lookup(m)
-            ok = isinstance(f, Closure) and f.qualname == "universal_exception.<locals>.wrapper" and owner is cls
+            # (the wrapper is recognised as "a closure made by universal_exception", whatever its own name)
+            ok = isinstance(f, Closure) and f.qualname.startswith("universal_exception.<locals>.") and owner is cls
             if not ok:
                 out["violations"].append({"name": f"aioftp.pathio:{cname}.{m}::outermost-decorator-is-universal_exception", "input": {"class": cname, "method": m, "found": getattr(f, "qualname", repr(f))}})
     out["evaluations"] = n
